@@ -31,6 +31,10 @@ THEOREMS = [
          clause="solidification stage, off-axis non-corner node: the assignment is c + theta*sum w_k (x_k - c); bounded "
                 "under the sign conditions on the conductivity differences (hypotheses, not implied by the model); "
                 "bottom corner, nonlinear capacity and T <= T_eq_l not covered"),
+    dict(name="Snow.C07.solid_weights_nonneg", strength="partial",
+         clause="sign hypotheses of maxprinciple_solid_partial follow from lambda_w <= k <= lambda_i: axial weights if "
+                "lambda_i <= 5 lambda_w, radial weights at r_j >= 2 dr if lambda_i <= 4 lambda_w; at j = 1 they do not "
+                "(water/ice ratio 3.76 > 3.1) and stay hypotheses"),
     dict(name="Snow.C07.r_ge_half_dr", strength="full",
          clause="r = linspace(0,R,Nr), dr = R/Nr: r_j >= dr/2 for j >= 1"),
     dict(name="Snow.C07.ice_range", strength="full",
